@@ -74,6 +74,17 @@ CHECKS = {
         design_ref="DESIGN.md section 5 C06",
         note="Structure is decided by the specification; bit-level primitives are delegated to reference crates; the "
              "independent codec is trusted."),
+    "C08": dict(
+        technique="TLA+ FaultGrammar model: TLC enumerates every set of field/value-class mutations and every operation history; "
+                  "behaviours concretised (valid cryptography around crafted plaintext) and run on the real code with panics, process deaths, time and allocation observed",
+        text="The mutation space (index length word, counts, name lengths, offsets pointing at foreign blocks / mid-content / "
+             "2^64-1, sizes, block types/ids/lengths, compression footer fields, truncations, long foreign-block chains) and "
+             "the operation histories (open, list, read, hash, linear extraction, repair in both modes, drop, also after "
+             "errors) are enumerated exhaustively by TLC; each is built under all layer stackings by the independent encoder "
+             "and executed with catch_unwind, process-death attribution, a 10 s/op limit and an allocation ceiling.",
+        design_ref="DESIGN.md section 5 C08",
+        note="Structured mutations only (raw bit flips/truncations are exercised by C03's engine); optimised build with "
+             "overflow checks; allocation ceiling 96 MiB + 64 x input."),
     "C09": dict(
         technique="TLA+ Writer model with every call enabled in every state (TLC: RefusedIsNoOp action property, "
                   "ShortNeverOk, AllOkThenReadable); complete call graph incl. refused self-loops replayed into the real ArchiveWriter",
